@@ -64,6 +64,38 @@ SnapperClauses(e) ==
       nearest    |-> e.exc = "" => SnapOK(divs, e.n, e.d, e.out.n, e.out.d),
       idempotent |-> e.exc = "" => e.again.n * e.out.d = e.out.n * e.again.d ]
 
+(* Tempo lists given in offset form: change k is ANCHORED at its own time e.anchors[k], which may sit a little off the *)
+(* grid of the segment before it (inside half a snap slot, so its position is still tl[k]); positions convert through *)
+(* the anchor of their segment, and times on a segment's own grid convert back to themselves.                          *)
+AnchTime(e, m, b) ==
+    LET k == SegOfSnap(e.tl, m, b) IN
+    e.anchors[k] + ((m - e.tl[k].m) * e.tl[k].met * e.G + b - e.tl[k].b) * (e.tl[k].bl \div e.G)
+AnchSeg(e, t) == LET S == { k \in DOMAIN e.anchors : e.anchors[k] <= t } IN CHOOSE k \in S : \A j \in S : j <= k
+AnchWF(e) ==
+    /\ WellFormedTl(e.tl, e.G) /\ Seated(e.tl) /\ Len(e.anchors) = Len(e.tl)
+    /\ \A k \in 2..Len(e.tl) :
+          Abs(e.anchors[k] - (e.anchors[k-1] + (e.tl[k].m - e.tl[k-1].m) * e.tl[k-1].met * e.tl[k-1].bl)) < e.tl[k-1].bl \div 192
+AnchOffsetsClauses(e) ==
+    [ wf_input |-> AnchWF(e),
+      no_exc   |-> e.exc = "",
+      aligned  |-> e.exc = "" => Len(e.out) = Len(e.qs),
+      integration |-> (e.exc = "" /\ Len(e.out) = Len(e.qs)) =>
+                         \A x \in DOMAIN e.qs : Abs(e.out[x] - AnchTime(e, e.qs[x].m, e.qs[x].b)) <= Tol ]
+AnchSnapsClauses(e) ==
+    LET n == Len(e.ts) IN
+    [ wf_input |-> AnchWF(e) /\ \A x \in 1..n : e.ts[x] >= e.anchors[1] /\
+                                 (e.ts[x] - e.anchors[AnchSeg(e, e.ts[x])]) % (e.tl[AnchSeg(e, e.ts[x])].bl \div e.G) = 0,
+      no_exc   |-> e.exc = "",
+      aligned  |-> e.exc = "" => (Len(e.out) = n /\ Len(e.back) = n),
+      ongrid_pos |-> (e.exc = "" /\ Len(e.out) = n) =>
+                       \A x \in 1..n :
+                          LET k == AnchSeg(e, e.ts[x])
+                              d == (e.ts[x] - e.anchors[k]) \div (e.tl[k].bl \div e.G)
+                              pm == e.tl[k].m + d \div (e.tl[k].met * e.G)
+                              pb == d % (e.tl[k].met * e.G) IN
+                          e.out[x].m = pm /\ e.out[x].bd > 0 /\ e.out[x].bn * e.G = pb * e.out[x].bd,
+      back_near |-> (e.exc = "" /\ Len(e.back) = n) => \A x \in 1..n : Abs(e.back[x] - e.ts[x]) <= Tol ]
+
 (* EXTENSION records (e.ext = TRUE): rejected ones are reported as observations, never as violations of C10 *)
 BpmOpsClauses(e) ==
     CASE e.op = "current_bpm" -> [ current |-> IF CurrentIx(e.otl, e.t) = 0 THEN e.exc = "IndexError"
@@ -74,6 +106,8 @@ BpmOpsClauses(e) ==
                                                         <= (e.last - e.otl[1].t) \div 1000 ]
 
 Clauses(e) == CASE e.op = "offsets" -> OffsetsClauses(e)
+                [] e.op = "offsets_anch" -> AnchOffsetsClauses(e)
+                [] e.op = "snaps_anch" -> AnchSnapsClauses(e)
                 [] e.op \in {"current_bpm", "snap_offsets", "ave_bpm"} -> BpmOpsClauses(e)
                 [] e.op = "starts"  -> StartsClauses(e)
                 [] e.op = "snaps"   -> SnapsClauses(e)
